@@ -44,6 +44,26 @@ let () =
       | cap :: sched :: h :: _ ->
         show_run (TextReader.run_stream (nat_of_int (int_of_string cap)) (parse_sched sched) (bytes_of_hex h))
       | _ -> "BADCASE");
+  register "tr.retry" (function
+      | [cap; sched; h] ->
+        let input = bytes_of_hex h in
+        let n = Stdlib.List.length input in
+        let fuel = fuel_for input sched in
+        let r0 = mk_reader cap sched input in
+        let rec go r steps errs acc =
+          if steps > 2 * n + 40 then (Stdlib.List.rev ("RUNAWAY" :: acc), r)
+          else match TextReader.next_opt fuel r with
+            | TextReader.NTok (t, r') -> go r' (steps + 1) errs (show_tok t :: acc)
+            | TextReader.NEnd r' -> (Stdlib.List.rev ("END" :: acc), r')
+            | TextReader.NErr (e, r') ->
+              let acc = ("ERR:" ^ string_of_n e) :: acc in
+              if errs + 1 > 6 || string_of_n e <> "100" then (Stdlib.List.rev acc, r') else go r' (steps + 1) (errs + 1) acc
+            | TextReader.NCrash _ -> ([crash_tag], r) in
+        let (items, r) = go r0 1 0 [] in
+        if Stdlib.List.mem crash_tag items then crash_tag
+        else Stdlib.String.concat " " (items @ ["@" ^ string_of_int (int_of_nat (TextReader.reader_position r));
+                                                 "D" ^ string_of_int (int_of_nat r.TextReader.rrd.BufWin.delivered)])
+      | _ -> "BADCASE");
   let skip kind = (function
       | [cap; sched; h; ntok] ->
         let input = bytes_of_hex h in
